@@ -141,13 +141,17 @@ fn(IR + 'simplify', TU_RS, serves=['C08', 'C05'], pure=True,
 
 fn(IR + 'next_size', TU_RS, sig='(int, int, int)', serves=['C08', 'C05'], pure=True,
    requires=[('positive', 'And(p >= 1, q >= 1, size >= 0, size <= INT_MAX - q)')],
-   ensures=[('covers', 'And(result >= size, result < size + q)'),
-            ('multiple', 'exists(lambda t, d, g: And(g >= 1, q == d * g, d >= 1, result == t * d, result - size < d))')])
+   ensures=[('hint:multiple_of_d', 'And(d >= 1, result == tdiv(result, d) * d, result - size < d, result >= size)'),
+            ('hint:d_divides_q', 'exists(lambda n: And(n >= 1, q == d * n))'),
+            ('covers', 'And(result >= size, result < size + q)'),
+            ('multiple', 'exists(lambda k, m, n: And(n >= 1, q == m * n, m >= 1, result == k * m, result - size < m))')])
 
 fn(IR + 'prev_size', TU_RS, sig='(int, int, int)', serves=['C08', 'C05'], pure=True,
    requires=[('positive', 'And(p >= 1, q >= 1, size >= 0)')],
-   ensures=[('covers', 'And(result <= size, result > size - q)'),
-            ('multiple', 'exists(lambda t, d, g: And(g >= 1, q == d * g, d >= 1, result == t * d, size - result < d))')])
+   ensures=[('hint:multiple_of_d', 'And(d >= 1, result == tdiv(result, d) * d, size - result < d, result <= size)'),
+            ('hint:d_divides_q', 'exists(lambda n: And(n >= 1, q == d * n))'),
+            ('covers', 'And(result <= size, result > size - q)'),
+            ('multiple', 'exists(lambda k, m, n: And(n >= 1, q == m * n, m >= 1, result == k * m, size - result < m))')])
 
 fn(IR + 'polyphase', TU_RS, serves=['C08', 'C05'], extra_env=ENV, pure=True,
    requires=[('positive', 'And(m >= 1, m <= 1073741824, h.len >= 1, h.len <= INT_MAX - 2*m)')],
